@@ -1,5 +1,6 @@
 import Hls.Proto
 import Hls.Playlist.Multi
+import Hls.Playlist.Grammar
 /-! Model driver for the `multi` correspondence stream (C14 / C15, multivariant half +
     lexical primitives).  One observation line per op line.
 
@@ -21,6 +22,7 @@ import Hls.Playlist.Multi
       unm <hex>                Multivariant.Unmarshal         -> ok <value> | err:<class>
       unmv <hex>               same (the harness additionally expects the value of the last `mar`)
       pl <hex>                 playlist.Unmarshal             -> none | multi <value> | other
+      gram <hex>               strict RFC 8216 grammar (multivariant) -> 1 | 0   (Lean twin vs Go twin)
 -/
 open Hls.Proto Hls.Playlist
 
@@ -173,6 +175,7 @@ def runOp (ws : List String) : Option String :=
     let t := m.marshal
     some s!"m={hexOfStr t} u={fmtRes (Multivariant.unmarshal t)}"
   | ["unm", h] => do some (fmtRes (Multivariant.unmarshal (← strOfHex h)))
+  | ["gram", h] => do some (if Grammar.acceptsMultivariant (← strOfHex h) then "1" else "0")
   | ["unmv", h] => do some (fmtRes (Multivariant.unmarshal (← strOfHex h)))
   | ["pl", h] => do
     let s ← strOfHex h
